@@ -44,7 +44,9 @@ type CfgCore struct {
 	Nest                           Nested
 	PN                             *Nested
 	Emb
-	Skip      int `dials:"-"`
+	Skip      int            `dials:"-"`
+	SkipM     map[string]int `dials:"-"` // skipped by dials, still part of every copy
+	SkipP     *int           `dials:"-"`
 	unexp     int
 	Ch        chan int
 	Fn        func()
@@ -262,6 +264,8 @@ func fillValue(e reflect.Value, p *Part, owner int) {
 func defaultsFrom(p *Part) *CfgCore {
 	c := &CfgCore{Skip: 77, unexp: 88, After: 3}
 	c.Ch = make(chan int, 1)
+	sp := 99
+	c.SkipM, c.SkipP = map[string]int{"kept": 1}, &sp
 	if p.I != nil {
 		c.I = *p.I
 	}
@@ -541,4 +545,54 @@ func overlap(a, b []region) (region, region, bool) {
 		}
 	}
 	return region{}, region{}, false
+}
+
+// mergeInPlace makes the value old (a pointer to a pointerified struct that
+// was reported earlier) carry exactly the content of nu, writing through the
+// pointers, maps and slices old already holds wherever it can: what a source
+// does that decodes every new document into one long-lived struct.
+func mergeInPlace(old, nu reflect.Value) {
+	if old.Kind() == reflect.Ptr {
+		old, nu = old.Elem(), nu.Elem()
+	}
+	for i := 0; i < old.NumField(); i++ {
+		of, nf := old.Field(i), nu.Field(i)
+		switch of.Kind() {
+		case reflect.Ptr:
+			switch {
+			case nf.IsNil():
+				of.Set(reflect.Zero(of.Type()))
+			case of.IsNil():
+				of.Set(nf)
+			case of.Type().Elem().Kind() == reflect.Struct:
+				mergeInPlace(of.Elem(), nf.Elem())
+			default:
+				of.Elem().Set(nf.Elem())
+			}
+		case reflect.Map:
+			switch {
+			case nf.IsNil():
+				of.Set(reflect.Zero(of.Type()))
+			case of.IsNil():
+				of.Set(nf)
+			default:
+				for _, k := range of.MapKeys() {
+					of.SetMapIndex(k, reflect.Value{})
+				}
+				it := nf.MapRange()
+				for it.Next() {
+					of.SetMapIndex(it.Key(), it.Value())
+				}
+			}
+		case reflect.Slice:
+			if !nf.IsNil() && !of.IsNil() && of.Cap() >= nf.Len() {
+				of.Set(of.Slice(0, nf.Len()))
+				reflect.Copy(of, nf)
+			} else {
+				of.Set(nf)
+			}
+		default:
+			of.Set(nf)
+		}
+	}
 }
